@@ -720,6 +720,30 @@ pub fn c09(tier: &str, seed: u64, meta: &str) -> Report {
         let smart = rng.below(2) as u32;
         let bits = 2 | (smart << 3) | (rng.below(2) as u32);
         let mut s = match psession(w, bits, true, None, None, "c09") { Ok(s) => s, Err(e) => { rep.diff(json!({"what": "context creation failed", "error": e})); return; } };
+        if i % 9 == 4 {
+            // a user-data directory that does not exist: the choice is kept in memory only, and stays known across
+            // an update_engine of the same (phonetic) method
+            let mut o = Opts::phonetic(&std::path::PathBuf::from("/nonexistent"));
+            set_pbits(&mut o, bits);
+            let mut f = match Session::new_faulty(w, o, None, None, "missing", "c09m") { Ok(x) => x, Err(_) => return };
+            let wd = words[rng.below(words.len())];
+            let st = feed_frontend(w, &mut f, pr, wd, rep, "C09");
+            let (_, l1, s1) = match last_full(&st) { Some(x) => x, None => return };
+            if l1.len() < 2 { return; }
+            let c = (s1 + 1 + rng.below(l1.len() - 1)) % l1.len();
+            if l1[c] == wd { return; }
+            let chosen = l1[c].clone();
+            feed(w, &mut f, &[SEv::Commit(c), SEv::Update(bits ^ 1, UacEdit::Keep)], rep, "C09");
+            let st2 = feed_frontend(w, &mut f, pr, wd, rep, "C09");
+            rep.evaluations += 1;
+            if let Some((_, l2, s2)) = last_full(&st2) {
+                if l2.get(s2) != Some(&chosen) {
+                    rep.fail(json!({"what": "a learned choice that could not be saved (no user-data directory) is forgotten by update_engine in the same context", "word": wd, "committed_candidate": chosen,
+                        "candidates": l2, "preselected_index": s2, "option_bits": bits, "session": f.describe()}));
+                }
+            }
+            return;
+        }
         if i % 6 == 5 && !pairs.is_empty() {
             // two learned bases fit the same text: b + (c s') and (b c) + s' - the longer learned base decides
             let b = words[rng.below(words.len())];
